@@ -251,6 +251,558 @@ Section Ref.
   Qed.
 End Ref.
 
+
+Definition ref_spans_q (types : list span_kind) : bool := forallb kind_quiet_r (removelast types).
+
+(* ---- the other half: no definition for the label - the brackets and the text between them stay literal text ---- *)
+Section RefNone.
+  Variables (pre w post : str) (fn : footnotes).
+  Hypothesis Hpre : plain_text pre = true.
+  Hypothesis Hw : plain_text w = true.
+  Hypothesis Hpost : plain_text post = true.
+  Hypothesis Hpo : hd 0 post <> 40.
+  Hypothesis Hfn : fn_get (normalize_label w) fn = None.
+
+  Let s := pre ++ [91] ++ w ++ [93] ++ post.
+  Let a := slen pre.
+  Let b := a + 1 + slen w.
+
+  Lemma nolabel : get_link_label w fn = None.
+  Proof. unfold get_link_label. destruct (no_unescaped_bracket w false && negb (is_blank w)); [exact Hfn|reflexivity]. Qed.
+
+  Lemma nolink_found : match_link_image s b (D pre) fn = None.
+  Proof.
+    unfold match_link_image. cbn [D d_type d_start d_number].
+    fold a. fold b. unfold s, b, a. rewrite (no_paren pre w post), (no_bracket pre w post), (r_inner_w pre w post), nolabel by assumption. reflexivity.
+  Qed.
+
+  Lemma find_nolink : find_link_image s b [D pre] [] fn = (b, [], []).
+  Proof.
+    unfold find_link_image. change (Z.of_nat (length [D pre]) - 1) with 0. change (length [D pre]) with 1%nat.
+    cbn [find_li_down]. change (nthd [D pre] 0 dummy) with (D pre).
+    change (is_bracket (D pre)) with true. cbn [d_active D negb]. cbv iota. rewrite nolink_found. reflexivity.
+  Qed.
+
+  Lemma scan_noref : scan_loop (S (S (length s))) s fn 0 None (mkScan [] [] false None false 0 []) = mkScan [] [] false None false 0 [].
+  Proof.
+    assert (El : (S (S (length s)) = length pre + S (length w + S (length post + 2)))%nat).
+    { unfold s. rewrite !app_length. cbn [length]. lia. }
+    rewrite El.
+    set (st0 := mkScan [] [] false None false 0 []).
+    rewrite (scan_inert_any s fn pre _ [] ([91] ++ w ++ [93] ++ post) st0 eq_refl (plain_inert pre Hpre)) by (repeat split).
+    change (slen [] + slen pre) with (slen pre).
+    rewrite (scan_bracket_step _ s fn pre (w ++ [93] ++ post) st0 eq_refl) by (repeat split).
+    pose proof (D_eq pre w post) as HD. fold s in HD. rewrite HD. clear HD. cbn [st0 sc_ds sc_ms sc_start sc_code app].
+    set (st1 := mkScan [D pre] [] false None false 0 []).
+    replace (slen pre + 1) with (slen (pre ++ [91])) by (rewrite slen_app; reflexivity).
+    rewrite (scan_inert_any s fn w _ (pre ++ [91]) ([93] ++ post) st1); [|unfold s; rewrite <- !app_assoc; reflexivity|exact (plain_inert w Hw)|repeat split].
+    replace (slen (pre ++ [91]) + slen w) with b by (unfold b, a; rewrite slen_app; unfold slen; cbn [length]; lia).
+    cbn [scan_loop].
+    assert (Hlt : b <? slen s = true) by (apply Z.ltb_lt; unfold s, b, a; rewrite (r_len pre w post); unfold slen; lia).
+    rewrite Hlt. cbn [negb].
+    pose proof (r_at_b pre w post) as HB. fold s in HB. fold a in HB. fold b in HB. rewrite HB. clear HB.
+    cbn [st1 sc_escaped sc_run sc_ds sc_ms sc_in_image sc_start sc_code andb negb orb Z.eqb Pos.eqb].
+    rewrite find_nolink.
+    pose proof (r_no_code pre w post Hpre Hw Hpost b) as HC. fold s in HC. rewrite HC. clear HC.
+    assert (Hcase : post = [] \/ post <> []) by (destruct post; [left; reflexivity|right; discriminate]).
+    destruct Hcase as [Ep|Ep].
+    - assert (Lp : length post = 0%nat) by (rewrite Ep; reflexivity). rewrite Lp. cbn [Nat.add].
+      assert (Ee : b + 1 = slen s) by (unfold s, b, a; rewrite (r_len pre w post), Ep; unfold slen; cbn [length]; lia).
+      rewrite Ee. rewrite scan_end. reflexivity.
+    - replace (b + 1) with (slen (pre ++ [91] ++ w ++ [93])) by (unfold b, a; rewrite !slen_app; unfold slen; cbn [length]; lia).
+      rewrite (scan_inert_any s fn post 2 (pre ++ [91] ++ w ++ [93]) [] (mkScan [] [] false None false 0 [])); [|unfold s; rewrite app_nil_r, <- !app_assoc; reflexivity|exact (plain_inert post Hpost)|repeat split].
+      replace (slen (pre ++ [91] ++ w ++ [93]) + slen post) with (slen s) by (unfold s; rewrite !slen_app; unfold slen; cbn [length]; lia).
+      rewrite scan_end. reflexivity.
+  Qed.
+
+  Theorem core_finds_noref : find_core_tokens s fn = ([], []).
+  Proof.
+    unfold find_core_tokens. pose proof (r_no_code pre w post Hpre Hw Hpost 0) as HC. fold s in HC. rewrite HC. clear HC. rewrite scan_noref. cbn [sc_ds sc_ms sc_code].
+    unfold process_emphasis. change (next_closer 0 []) with (@None Z). destruct (3 * length s + 3)%nat; reflexivity.
+  Qed.
+
+  Lemma find_all_noref : forall types, forallb kind_quiet_r types = true -> find_all types s fn [] = [].
+  Proof.
+    induction types as [|kd ts IH]; intros Hq; [reflexivity|].
+    cbn [forallb] in Hq. apply andb_true_iff in Hq as [Hkq Hts]. cbn [find_all].
+    assert (F : match kd with SK_CoreTokens | SK_InlineCode | SK_RawText => True | _ => finditer (snd (re_of kd)) (fst (re_of kd)) s = [] end).
+    { destruct kd; try exact I; cbn [kind_quiet_r] in Hkq; apply existsb_exists in Hkq as (c & Hin & Hn);
+        (apply (finditer_none _ _ c s Hn); apply (r_no pre w post Hpre Hw Hpost c); unfold mem; apply existsb_exists; exists c; split; [exact Hin|apply Z.eqb_refl]). }
+    destruct kd; cbn [find_kind];
+      try (rewrite core_finds_noref; cbn [map app]; apply IH; exact Hts);
+      try (cbn [map app]; apply IH; exact Hts);
+      (cbn [re_of fst snd] in F |- *; rewrite F; cbn [map app]; apply IH; exact Hts).
+  Qed.
+
+  Theorem tokenize_inner_noref types : forallb kind_quiet_r (removelast types) = true ->
+    tokenize_inner types fn s = [RawText s].
+  Proof.
+    intros Hq. unfold tokenize_inner. rewrite (find_all_noref _ Hq). cbn [number_from map].
+    unfold tokenize, SpanTokenizer.make_tokens, make_tokens_with. cbn [sort_cands fold_right buffer_rev mk_rev rev app last_end].
+    assert (Hs : 0 < slen s) by (unfold s; rewrite !slen_app; unfold slen; cbn [length]; lia).
+    assert (0 =? slen s = false) as -> by (apply Z.eqb_neq; lia).
+    cbn [app rev map build_otok].
+    assert (Esub : substr s 0 (slen s) = s).
+    { pose proof (substr_mid [] s []) as M. rewrite app_nil_r in M. cbn [app] in M. unfold slen at 1 2 in M. cbn [length Z.of_nat] in M. rewrite Z.add_0_l in M. exact M. }
+    rewrite Esub. f_equal. f_equal. unfold unescape, unescape_with.
+    pose proof (r_no pre w post Hpre Hw Hpost 38 eq_refl) as H38. fold s in H38. rewrite H38. reflexivity.
+  Qed.
+End RefNone.
+
+Theorem reference_without_definition types fn pre w post :
+  ref_spans_q types = true -> plain_text pre && plain_text w && plain_text post && negb (hd 0 post =? 40) = true ->
+  fn_get (normalize_label w) fn = None ->
+  tokenize_inner types fn (pre ++ [91] ++ w ++ [93] ++ post) = [RawText (pre ++ [91] ++ w ++ [93] ++ post)].
+Proof.
+  intros Hq Ho Hf. repeat rewrite andb_true_iff in Ho. destruct Ho as [[[H1 H2] H3] H5]. apply negb_true_iff in H5. apply Z.eqb_neq in H5.
+  apply (tokenize_inner_noref pre w post fn H1 H2 H3 H5 Hf types Hq).
+Qed.
+
+
+
+(* ---- the full form [t][lab] and the collapsed form [w][] ---- *)
+Lemma label_scan_run : forall lab i st rest, plain_text lab = true ->
+  label_scan (lab ++ 93 :: rest) i st false = Some (st, i + slen lab).
+Proof.
+  induction lab as [|c r IH]; intros i st rest H.
+  - cbn [app label_scan]. change (93 =? 92) with false. change (93 =? 91) with false. change (93 =? 93) with true. cbn [andb negb].
+    unfold slen. cbn [length Z.of_nat]. f_equal. f_equal. lia.
+  - cbn [plain_text forallb] in H. apply andb_true_iff in H as [Hc Hr].
+    apply negb_true_iff in Hc. unfold mem, triggers in Hc. cbn [existsb] in Hc. repeat (apply orb_false_iff in Hc; destruct Hc as [? Hc]).
+    cbn [app label_scan].
+    repeat match goal with X : (_ =? c) = false |- _ => rewrite Z.eqb_sym in X end.
+    repeat match goal with X : (c =? _) = false |- _ => rewrite X end. cbn [andb orb negb].
+    rewrite (IH (i + 1) st rest Hr). f_equal. f_equal. unfold slen. cbn [length]. lia.
+Qed.
+
+Section RefFull.
+  Variables (pre t lab post : str) (fn : footnotes) (dest title : str).
+  Hypothesis Hpre : plain_text pre = true.
+  Hypothesis Ht : plain_text t = true.
+  Hypothesis Hlab : plain_text lab = true.
+  Hypothesis Hpost : plain_text post = true.
+  Hypothesis Htne : t <> [].
+  Hypothesis Hlb : is_blank lab = false.
+  Hypothesis Hfn : fn_get (normalize_label lab) fn = Some (dest, title).
+
+  Let s := pre ++ [91] ++ t ++ [93; 91] ++ lab ++ [93] ++ post.
+  Let a := slen pre.
+  Let b := a + 1 + slen t.
+  Let e := b + 2 + slen lab.          (* the index of the second "]" *)
+
+  Lemma f_len : slen s = e + 1 + slen post.
+  Proof. unfold s, e, b, a. rewrite !slen_app. unfold slen. cbn [length]. lia. Qed.
+  Lemma f_p0 : 0 <= slen post.  Proof. unfold slen. lia. Qed.
+  Lemma f_l0 : 0 <= slen lab.  Proof. unfold slen. lia. Qed.
+  Lemma f_t0 : 0 < slen t.
+  Proof. unfold slen. destruct (length t) eqn:El; [apply length_zero_iff_nil in El; contradiction|lia]. Qed.
+
+  Lemma f_at_b : char_at s b = 93.
+  Proof.
+    unfold s. replace (pre ++ [91] ++ t ++ [93; 91] ++ lab ++ [93] ++ post) with ((pre ++ [91] ++ t) ++ 93 :: ([91] ++ lab ++ [93] ++ post)) by (rewrite <- !app_assoc; reflexivity).
+    replace b with (slen (pre ++ [91] ++ t)) by (unfold b, a; rewrite !slen_app; unfold slen; cbn [length]; lia). apply char_at_mid.
+  Qed.
+  Lemma f_at_b1 : char_at s (b + 1) = 91.
+  Proof.
+    unfold s. replace (pre ++ [91] ++ t ++ [93; 91] ++ lab ++ [93] ++ post) with ((pre ++ [91] ++ t ++ [93]) ++ 91 :: (lab ++ [93] ++ post)) by (rewrite <- !app_assoc; reflexivity).
+    replace (b + 1) with (slen (pre ++ [91] ++ t ++ [93])) by (unfold b, a; rewrite !slen_app; unfold slen; cbn [length]; lia). apply char_at_mid.
+  Qed.
+  Lemma f_b1_lt : b + 1 <? slen s = true.
+  Proof. apply Z.ltb_lt. rewrite f_len. unfold e. pose proof f_p0. pose proof f_l0. lia. Qed.
+
+  Lemma f_inner : substr s (a + 1) b = t.
+  Proof.
+    pose proof (substr_mid (pre ++ [91]) t ([93; 91] ++ lab ++ [93] ++ post)) as M.
+    replace (slen (pre ++ [91])) with (a + 1) in M by (rewrite slen_app; reflexivity).
+    replace (a + 1 + slen t) with b in M by (unfold b; lia).
+    unfold s. replace (pre ++ [91] ++ t ++ [93; 91] ++ lab ++ [93] ++ post) with ((pre ++ [91]) ++ t ++ [93; 91] ++ lab ++ [93] ++ post) by (rewrite <- !app_assoc; reflexivity). exact M.
+  Qed.
+  Lemma f_bracket : substr s a (a + 1) = [91].
+  Proof. pose proof (substr_mid pre [91] (t ++ [93; 91] ++ lab ++ [93] ++ post)) as M. fold a in M. exact M. Qed.
+  Lemma f_label : substr s (b + 2) e = lab.
+  Proof.
+    pose proof (substr_mid (pre ++ [91] ++ t ++ [93; 91]) lab ([93] ++ post)) as M.
+    replace (slen (pre ++ [91] ++ t ++ [93; 91])) with (b + 2) in M by (unfold b, a; rewrite !slen_app; unfold slen; cbn [length]; lia).
+    replace (b + 2 + slen lab) with e in M by reflexivity.
+    unfold s. replace (pre ++ [91] ++ t ++ [93; 91] ++ lab ++ [93] ++ post) with ((pre ++ [91] ++ t ++ [93; 91]) ++ lab ++ [93] ++ post) by (rewrite <- !app_assoc; reflexivity). exact M.
+  Qed.
+
+  Definition FD : delim := mkDelim [91] 1 1 true a (a + 1) false false false.
+  Lemma FD_eq : new_delim a (a + 1) s = FD.
+  Proof. unfold new_delim. rewrite f_bracket. cbn [andb]. unfold FD. f_equal; lia. Qed.
+
+  Definition the_full : mobj :=
+    link_mobj false a (e + 1) (a + 1, b, t) (-1, -1, dest) (-1, -1, title) $"full" (Some lab) [].
+
+  Lemma full_label : match_link_label s (b + 1) fn = Some ((b + 1, e + 1, lab), (dest, title)).
+  Proof.
+    unfold match_link_label.
+    assert (Ed : drop (b + 1) s = 91 :: lab ++ 93 :: post).
+    { unfold s. replace (pre ++ [91] ++ t ++ [93; 91] ++ lab ++ [93] ++ post) with ((pre ++ [91] ++ t ++ [93]) ++ 91 :: lab ++ 93 :: post) by (rewrite <- !app_assoc; reflexivity).
+      replace (b + 1) with (slen (pre ++ [91] ++ t ++ [93])) by (unfold b, a; rewrite !slen_app; unfold slen; cbn [length]; lia).
+      unfold drop, slen. rewrite Nat2Z.id, skipn_app, skipn_all, Nat.sub_diag. reflexivity. }
+    rewrite Ed. cbn [label_scan]. change (91 =? 92) with false. change (91 =? 91) with true. cbn [andb negb]. change (-1 =? -1) with true. cbv iota.
+    rewrite (label_scan_run lab (b + 1 + 1) (b + 1) post Hlab).
+    replace (b + 1 + 1 + slen lab) with e by (unfold e; lia). replace (b + 1 + 1) with (b + 2) by lia.
+    rewrite f_label, Hlb. cbn [negb]. rewrite Hfn. reflexivity.
+  Qed.
+
+  Lemma full_found : match_link_image s b FD fn = Some the_full.
+  Proof.
+    unfold match_link_image. cbn [FD d_type d_start d_number].
+    assert (N40 : follows s b 40 = false) by (unfold follows; rewrite f_b1_lt, f_at_b1; reflexivity).
+    assert (Y91 : follows s b 91 = true) by (unfold follows; rewrite f_b1_lt, f_at_b1; reflexivity).
+    rewrite N40, Y91, f_inner, full_label. reflexivity.
+  Qed.
+
+  Lemma find_full : find_link_image s b [FD] [] fn = (e, [], [the_full]).
+  Proof.
+    unfold find_link_image. change (Z.of_nat (length [FD]) - 1) with 0. change (length [FD]) with 1%nat.
+    cbn [find_li_down]. change (nthd [FD] 0 dummy) with FD.
+    change (is_bracket FD) with true. cbn [d_active FD negb]. cbv iota. rewrite full_found.
+    assert (PE : process_emphasis s (Some 0) [FD] [] = ([], [])).
+    { unfold process_emphasis. change (next_closer 0 [FD]) with (@None Z). destruct (3 * length s + 3)%nat; reflexivity. }
+    rewrite PE. change (str_eqb (d_type FD) ($"[")) with true. cbv iota. unfold deactivate. cbn [Z.to_nat firstn skipn map app].
+    unfold the_full, link_mobj. cbn [m_end]. replace (e + 1 - 1) with e by lia. reflexivity.
+  Qed.
+
+  Lemma f_no c : mem c triggers_r = true -> mem c s = false.
+  Proof.
+    intros Hc.
+    assert (P : forall x, plain_text x = true -> mem c x = false).
+    { intros x Hx. apply plain_no; [|exact Hx]. unfold mem, triggers_r, triggers in *. cbn [existsb] in *.
+      repeat (apply orb_true_iff in Hc; destruct Hc as [Hc|Hc]); try discriminate; rewrite Hc; cbn [orb]; rewrite ?orb_true_r; reflexivity. }
+    assert (C91 : c <> 91 /\ c <> 93) by (split; intros ->; vm_compute in Hc; discriminate).
+    unfold s, mem. rewrite !existsb_app. fold (mem c pre). fold (mem c t). fold (mem c lab). fold (mem c post).
+    rewrite (P pre Hpre), (P t Ht), (P lab Hlab), (P post Hpost). cbn [existsb orb].
+    destruct C91 as [C1 C2]. apply Z.eqb_neq in C1, C2. rewrite C1, C2. reflexivity.
+  Qed.
+
+  Lemma f_no_code i : code_search s i = None.
+  Proof.
+    unfold code_search. apply (search_state_none _ _ 96); [vm_compute; reflexivity|]. unfold seek. cbn [aft].
+    apply mem_drop. apply f_no. reflexivity.
+  Qed.
+
+  Lemma scan_full : exists st, scan_loop (S (S (length s))) s fn 0 None (mkScan [] [] false None false 0 []) = st /\
+                               sc_ds st = [] /\ sc_ms st = [the_full] /\ sc_code st = [].
+  Proof.
+    assert (El : (S (S (length s)) = length pre + S (length t + S (length lab + 2 + (length post + 2))))%nat).
+    { unfold s. rewrite !app_length. cbn [length]. lia. }
+    rewrite El.
+    set (st0 := mkScan [] [] false None false 0 []).
+    rewrite (scan_inert_any s fn pre _ [] ([91] ++ t ++ [93; 91] ++ lab ++ [93] ++ post) st0 eq_refl (plain_inert pre Hpre)) by (repeat split).
+    change (slen [] + slen pre) with (slen pre).
+    rewrite (scan_bracket_step _ s fn pre (t ++ [93; 91] ++ lab ++ [93] ++ post) st0 eq_refl) by (repeat split).
+    fold a. rewrite FD_eq. cbn [st0 sc_ds sc_ms sc_start sc_code app].
+    set (st1 := mkScan [FD] [] false None false 0 []).
+    replace (a + 1) with (slen (pre ++ [91])) by (rewrite slen_app; reflexivity).
+    rewrite (scan_inert_any s fn t _ (pre ++ [91]) ([93; 91] ++ lab ++ [93] ++ post) st1); [|unfold s; rewrite <- !app_assoc; reflexivity|exact (plain_inert t Ht)|repeat split].
+    replace (slen (pre ++ [91]) + slen t) with b by (unfold b, a; rewrite slen_app; unfold slen; cbn [length]; lia).
+    cbn [scan_loop].
+    assert (Hlt : b <? slen s = true) by (apply Z.ltb_lt; rewrite f_len; unfold e; pose proof f_p0; pose proof f_l0; lia).
+    rewrite Hlt. cbn [negb]. rewrite f_at_b. cbn [st1 sc_escaped sc_run sc_ds sc_ms sc_in_image sc_start sc_code andb negb orb Z.eqb Pos.eqb].
+    rewrite find_full. rewrite f_no_code.
+    set (st2 := mkScan [] [the_full] false None false 0 []).
+    assert (Hcase : post = [] \/ post <> []) by (destruct post; [left; reflexivity|right; discriminate]).
+    destruct Hcase as [Ep|Ep].
+    - assert (Lp : length post = 0%nat) by (rewrite Ep; reflexivity). rewrite Lp.
+      assert (Ee : e + 1 = slen s) by (rewrite f_len, Ep; unfold slen; cbn [length]; lia).
+      rewrite Ee. replace (length lab + 2 + (0 + 2))%nat with (S (length lab + 3)) by lia. rewrite scan_end. cbn [st2 sc_run]. eexists. split; [reflexivity|]. repeat split.
+    - replace (e + 1) with (slen (pre ++ [91] ++ t ++ [93; 91] ++ lab ++ [93])) by (unfold e, b, a; rewrite !slen_app; unfold slen; cbn [length]; lia).
+      replace (length lab + 2 + (length post + 2))%nat with (length post + (length lab + 4))%nat by lia.
+      rewrite (scan_inert_any s fn post _ (pre ++ [91] ++ t ++ [93; 91] ++ lab ++ [93]) [] st2); [|unfold s; rewrite app_nil_r, <- !app_assoc; reflexivity|exact (plain_inert post Hpost)|repeat split].
+      replace (slen (pre ++ [91] ++ t ++ [93; 91] ++ lab ++ [93]) + slen post) with (slen s) by (rewrite f_len; unfold e, b, a; rewrite !slen_app; unfold slen; cbn [length]; lia).
+      replace (length lab + 4)%nat with (S (length lab + 3)) by lia.
+      rewrite scan_end. cbn [st2 sc_run]. eexists. split; [reflexivity|]. repeat split.
+  Qed.
+
+  Theorem core_finds_full : find_core_tokens s fn = ([the_full], []).
+  Proof.
+    unfold find_core_tokens. rewrite f_no_code. destruct scan_full as (st & -> & Hd & Hm & Hc). rewrite Hd, Hm, Hc.
+    unfold process_emphasis. change (next_closer 0 []) with (@None Z). destruct (3 * length s + 3)%nat; reflexivity.
+  Qed.
+
+  Lemma find_all_full : forall types, forallb kind_quiet_r types = true ->
+    find_all types s fn [] = flat_map (fun kd => match kd with SK_CoreTokens => [CCore the_full] | _ => [] end) types.
+  Proof.
+    induction types as [|kd ts IH]; intros Hq; [reflexivity|].
+    cbn [forallb] in Hq. apply andb_true_iff in Hq as [Hkq Hts]. cbn [find_all flat_map].
+    assert (F : match kd with SK_CoreTokens | SK_InlineCode | SK_RawText => True | _ => finditer (snd (re_of kd)) (fst (re_of kd)) s = [] end).
+    { destruct kd; try exact I; cbn [kind_quiet_r] in Hkq; apply existsb_exists in Hkq as (c & Hin & Hn);
+        (apply (finditer_none _ _ c s Hn); apply f_no; unfold mem; apply existsb_exists; exists c; split; [exact Hin|apply Z.eqb_refl]). }
+    destruct kd; cbn [find_kind];
+      try (rewrite core_finds_full; cbn [map app]; f_equal; apply IH; exact Hts);
+      try (cbn [map app]; apply IH; exact Hts);
+      (cbn [re_of fst snd] in F |- *; rewrite F; cbn [map app]; apply IH; exact Hts).
+  Qed.
+
+  Definition full_tok : tok :=
+    Link (mkLink (escape_strip (strip dest)) (escape_strip title) $"full" (Some lab) []) [RawText t].
+
+  Theorem tokenize_inner_full types : forallb kind_quiet_r (removelast types) = true ->
+    filter (fun kd => match kd with SK_CoreTokens => true | _ => false end) (removelast types) = [SK_CoreTokens] ->
+    tokenize_inner types fn s = raw_if pre ++ [full_tok] ++ raw_if post.
+  Proof.
+    intros Hq Hc. unfold tokenize_inner. rewrite (find_all_full _ Hq).
+    assert (Es : flat_map (fun kd => match kd with SK_CoreTokens => [CCore the_full] | _ => [] end) (removelast types) = [CCore the_full]).
+    { clear Hq. revert Hc. generalize (removelast types) as ts.
+      assert (G : forall ts n, length (filter (fun kd => match kd with SK_CoreTokens => true | _ => false end) ts) = n ->
+                flat_map (fun kd => match kd with SK_CoreTokens => [CCore the_full] | _ => [] end) ts = repeat (CCore the_full) n).
+      { induction ts as [|kd ts IH]; intros n Hn; [cbn in Hn; subst n; reflexivity|]. cbn [flat_map filter] in *.
+        destruct kd; try (cbn [app]; apply IH; exact Hn). destruct n as [|n]; [discriminate|]. cbn [length] in Hn. cbn [repeat app]. f_equal. apply IH. lia. }
+      intros ts H. rewrite (G ts 1%nat) by (rewrite H; reflexivity). reflexivity. }
+    rewrite Es.
+    cbn [number_from map fst snd cand_of sk_parse_group field_span the_full link_mobj m_fields nth_error m_start m_end sk_precedence sk_parse_inner].
+    pose proof f_len as Hs. pose proof f_p0 as Hp0. pose proof f_t0 as Ht0. pose proof f_l0 as Hl0.
+    assert (Ha0 : 0 <= a) by (unfold a, slen; lia).
+    unfold tokenize, SpanTokenizer.make_tokens, make_tokens_with.
+    cbn [sort_cands fold_right insert_stable buffer_rev eval_loop last_end pc ce mk_rev cs make inner ps pe app rev].
+    unfold make_tokens_with. cbn [last_end mk_rev app rev].
+    assert (a + 1 =? b = false) as -> by (apply Z.eqb_neq; unfold b; lia).
+    assert (Gb : (if a >? 0 then [ORaw 0 a] else []) = match pre with [] => [] | _ => [ORaw 0 a] end) by (unfold a; apply gap_before).
+    assert (Ga : (if e + 1 =? slen s then [] else [ORaw (e + 1) (slen s)]) = match post with [] => [] | _ => [ORaw (e + 1) (slen s)] end) by (rewrite Hs; apply gap_after).
+    rewrite Gb, Ga. rewrite rev_app_distr. cbn [rev app]. rewrite rev_app_distr. cbn [rev app].
+    rewrite !map_app. cbn [map build_otok cid src_at Z.to_nat nth].
+    rewrite f_inner, (unescape_plain t Ht).
+    assert (Tk : build_inner (CCore the_full) [RawText t] = full_tok) by reflexivity.
+    rewrite Tk. rewrite <- app_assoc. cbn [app]. f_equal; [|f_equal].
+    - apply raw_gap. cbn [build_otok]. f_equal.
+      pose proof (substr_mid [] pre ([91] ++ t ++ [93; 91] ++ lab ++ [93] ++ post)) as M. cbn [app] in M. unfold slen at 1 2 in M. cbn [length Z.of_nat] in M.
+      fold a in M. replace (0 + a) with a in M by lia. unfold s. cbn [app]. rewrite M. apply unescape_plain. exact Hpre.
+    - apply raw_gap. cbn [build_otok]. f_equal.
+      pose proof (substr_mid (pre ++ [91] ++ t ++ [93; 91] ++ lab ++ [93]) post []) as M.
+      replace (slen (pre ++ [91] ++ t ++ [93; 91] ++ lab ++ [93])) with (e + 1) in M by (unfold e, b, a; rewrite !slen_app; unfold slen; cbn [length]; lia).
+      rewrite app_nil_r in M. replace ((pre ++ [91] ++ t ++ [93; 91] ++ lab ++ [93]) ++ post) with s in M by (unfold s; rewrite <- !app_assoc; reflexivity).
+      rewrite Hs. rewrite M. apply unescape_plain. exact Hpost.
+  Qed.
+End RefFull.
+
+Section RefColl.
+  Variables (pre t post : str) (fn : footnotes) (dest title : str).
+  Let lab : str := [].
+  Hypothesis Hpre : plain_text pre = true.
+  Hypothesis Ht : plain_text t = true.
+  Hypothesis Hpost : plain_text post = true.
+  Hypothesis Htne : t <> [].
+  Hypothesis Htb : is_blank t = false.
+  Hypothesis Hfn : fn_get (normalize_label t) fn = Some (dest, title).
+  Let Hlab : plain_text lab = true := eq_refl.
+
+  Let s := pre ++ [91] ++ t ++ [93; 91] ++ lab ++ [93] ++ post.
+  Let a := slen pre.
+  Let b := a + 1 + slen t.
+  Let e := b + 2 + slen lab.          (* the index of the second "]" *)
+
+  Lemma c_len : slen s = e + 1 + slen post.
+  Proof. unfold s, e, b, a. rewrite !slen_app. unfold slen. cbn [length]. lia. Qed.
+  Lemma c_p0 : 0 <= slen post.  Proof. unfold slen. lia. Qed.
+  Lemma c_l0 : 0 <= slen lab.  Proof. unfold slen. lia. Qed.
+  Lemma c_t0 : 0 < slen t.
+  Proof. unfold slen. destruct (length t) eqn:El; [apply length_zero_iff_nil in El; contradiction|lia]. Qed.
+
+  Lemma c_at_b : char_at s b = 93.
+  Proof.
+    unfold s. replace (pre ++ [91] ++ t ++ [93; 91] ++ lab ++ [93] ++ post) with ((pre ++ [91] ++ t) ++ 93 :: ([91] ++ lab ++ [93] ++ post)) by (rewrite <- !app_assoc; reflexivity).
+    replace b with (slen (pre ++ [91] ++ t)) by (unfold b, a; rewrite !slen_app; unfold slen; cbn [length]; lia). apply char_at_mid.
+  Qed.
+  Lemma c_at_b1 : char_at s (b + 1) = 91.
+  Proof.
+    unfold s. replace (pre ++ [91] ++ t ++ [93; 91] ++ lab ++ [93] ++ post) with ((pre ++ [91] ++ t ++ [93]) ++ 91 :: (lab ++ [93] ++ post)) by (rewrite <- !app_assoc; reflexivity).
+    replace (b + 1) with (slen (pre ++ [91] ++ t ++ [93])) by (unfold b, a; rewrite !slen_app; unfold slen; cbn [length]; lia). apply char_at_mid.
+  Qed.
+  Lemma c_b1_lt : b + 1 <? slen s = true.
+  Proof. apply Z.ltb_lt. rewrite c_len. unfold e. pose proof c_p0. pose proof c_l0. lia. Qed.
+
+  Lemma c_inner : substr s (a + 1) b = t.
+  Proof.
+    pose proof (substr_mid (pre ++ [91]) t ([93; 91] ++ lab ++ [93] ++ post)) as M.
+    replace (slen (pre ++ [91])) with (a + 1) in M by (rewrite slen_app; reflexivity).
+    replace (a + 1 + slen t) with b in M by (unfold b; lia).
+    unfold s. replace (pre ++ [91] ++ t ++ [93; 91] ++ lab ++ [93] ++ post) with ((pre ++ [91]) ++ t ++ [93; 91] ++ lab ++ [93] ++ post) by (rewrite <- !app_assoc; reflexivity). exact M.
+  Qed.
+  Lemma c_bracket : substr s a (a + 1) = [91].
+  Proof. pose proof (substr_mid pre [91] (t ++ [93; 91] ++ lab ++ [93] ++ post)) as M. fold a in M. exact M. Qed.
+  Lemma c_label : substr s (b + 2) e = lab.
+  Proof.
+    pose proof (substr_mid (pre ++ [91] ++ t ++ [93; 91]) lab ([93] ++ post)) as M.
+    replace (slen (pre ++ [91] ++ t ++ [93; 91])) with (b + 2) in M by (unfold b, a; rewrite !slen_app; unfold slen; cbn [length]; lia).
+    replace (b + 2 + slen lab) with e in M by reflexivity.
+    unfold s. replace (pre ++ [91] ++ t ++ [93; 91] ++ lab ++ [93] ++ post) with ((pre ++ [91] ++ t ++ [93; 91]) ++ lab ++ [93] ++ post) by (rewrite <- !app_assoc; reflexivity). exact M.
+  Qed.
+
+  Definition CD : delim := mkDelim [91] 1 1 true a (a + 1) false false false.
+  Lemma CD_eq : new_delim a (a + 1) s = CD.
+  Proof. unfold new_delim. rewrite c_bracket. cbn [andb]. unfold CD. f_equal; lia. Qed.
+
+  Definition the_coll : mobj :=
+    link_mobj false a (e + 1) (a + 1, b, t) (-1, -1, dest) (-1, -1, title) $"collapsed" None [].
+
+  Lemma coll_label : match_link_label s (b + 1) fn = None.
+  Proof.
+    unfold match_link_label.
+    assert (Ed : drop (b + 1) s = 91 :: lab ++ 93 :: post).
+    { unfold s. replace (pre ++ [91] ++ t ++ [93; 91] ++ lab ++ [93] ++ post) with ((pre ++ [91] ++ t ++ [93]) ++ 91 :: lab ++ 93 :: post) by (rewrite <- !app_assoc; reflexivity).
+      replace (b + 1) with (slen (pre ++ [91] ++ t ++ [93])) by (unfold b, a; rewrite !slen_app; unfold slen; cbn [length]; lia).
+      unfold drop, slen. rewrite Nat2Z.id, skipn_app, skipn_all, Nat.sub_diag. reflexivity. }
+    rewrite Ed. cbn [label_scan]. change (91 =? 92) with false. change (91 =? 91) with true. cbn [andb negb]. change (-1 =? -1) with true. cbv iota.
+    rewrite (label_scan_run lab (b + 1 + 1) (b + 1) post Hlab).
+    replace (b + 1 + 1 + slen lab) with e by (unfold e; lia). replace (b + 1 + 1) with (b + 2) by lia.
+    rewrite c_label. reflexivity.
+  Qed.
+
+  Lemma coll_text : get_link_label t fn = Some (dest, title).
+  Proof.
+    unfold get_link_label. rewrite Htb. cbn [negb].
+    assert (N : forall x esc, plain_text x = true -> no_unescaped_bracket x esc = true).
+    { induction x as [|c r IH]; intros esc Hx; [reflexivity|]. cbn [plain_text forallb] in Hx. apply andb_true_iff in Hx as [Hc Hr].
+      apply negb_true_iff in Hc. unfold mem, triggers in Hc. cbn [existsb] in Hc. repeat (apply orb_false_iff in Hc; destruct Hc as [? Hc]).
+      cbn [no_unescaped_bracket].
+      repeat match goal with X : (_ =? c) = false |- _ => rewrite Z.eqb_sym in X end.
+      repeat match goal with X : (c =? _) = false |- _ => rewrite X end. cbn [andb orb negb]. destruct esc; apply IH; exact Hr. }
+    rewrite (N t false Ht). cbn [andb]. exact Hfn.
+  Qed.
+
+  Lemma c_at_e : char_at s e = 93.
+  Proof.
+    unfold s. replace (pre ++ [91] ++ t ++ [93; 91] ++ lab ++ [93] ++ post) with ((pre ++ [91] ++ t ++ [93; 91] ++ lab) ++ 93 :: post) by (rewrite <- !app_assoc; reflexivity).
+    replace e with (slen (pre ++ [91] ++ t ++ [93; 91] ++ lab)) by (unfold e, b, a; rewrite !slen_app; unfold slen; cbn [length]; lia). apply char_at_mid.
+  Qed.
+
+  Lemma coll_found : match_link_image s b CD fn = Some the_coll.
+  Proof.
+    unfold match_link_image. cbn [CD d_type d_start d_number].
+    assert (N40 : follows s b 40 = false) by (unfold follows; rewrite c_b1_lt, c_at_b1; reflexivity).
+    assert (Y91 : follows s b 91 = true) by (unfold follows; rewrite c_b1_lt, c_at_b1; reflexivity).
+    assert (Y93 : follows s (b + 1) 93 = true).
+    { unfold follows. replace (b + 1 + 1) with e by (unfold e, lab, slen; cbn [length]; lia). rewrite c_at_e.
+      assert (e <? slen s = true) as -> by (apply Z.ltb_lt; rewrite c_len; pose proof c_p0; lia). reflexivity. }
+    rewrite N40, Y91, c_inner, coll_label, coll_text, Y93. unfold the_coll. f_equal. unfold link_mobj. f_equal. unfold e, lab, slen. cbn [length]. lia.
+  Qed.
+
+  Lemma find_coll : find_link_image s b [CD] [] fn = (e, [], [the_coll]).
+  Proof.
+    unfold find_link_image. change (Z.of_nat (length [CD]) - 1) with 0. change (length [CD]) with 1%nat.
+    cbn [find_li_down]. change (nthd [CD] 0 dummy) with CD.
+    change (is_bracket CD) with true. cbn [d_active CD negb]. cbv iota. rewrite coll_found.
+    assert (PE : process_emphasis s (Some 0) [CD] [] = ([], [])).
+    { unfold process_emphasis. change (next_closer 0 [CD]) with (@None Z). destruct (3 * length s + 3)%nat; reflexivity. }
+    rewrite PE. change (str_eqb (d_type CD) ($"[")) with true. cbv iota. unfold deactivate. cbn [Z.to_nat firstn skipn map app].
+    unfold the_coll, link_mobj. cbn [m_end]. replace (e + 1 - 1) with e by lia. reflexivity.
+  Qed.
+
+  Lemma c_no c : mem c triggers_r = true -> mem c s = false.
+  Proof.
+    intros Hc.
+    assert (P : forall x, plain_text x = true -> mem c x = false).
+    { intros x Hx. apply plain_no; [|exact Hx]. unfold mem, triggers_r, triggers in *. cbn [existsb] in *.
+      repeat (apply orb_true_iff in Hc; destruct Hc as [Hc|Hc]); try discriminate; rewrite Hc; cbn [orb]; rewrite ?orb_true_r; reflexivity. }
+    assert (C91 : c <> 91 /\ c <> 93) by (split; intros ->; vm_compute in Hc; discriminate).
+    unfold s, mem. rewrite !existsb_app. fold (mem c pre). fold (mem c t). fold (mem c lab). fold (mem c post).
+    rewrite (P pre Hpre), (P t Ht), (P lab Hlab), (P post Hpost). cbn [existsb orb].
+    destruct C91 as [C1 C2]. apply Z.eqb_neq in C1, C2. rewrite C1, C2. reflexivity.
+  Qed.
+
+  Lemma c_no_code i : code_search s i = None.
+  Proof.
+    unfold code_search. apply (search_state_none _ _ 96); [vm_compute; reflexivity|]. unfold seek. cbn [aft].
+    apply mem_drop. apply c_no. reflexivity.
+  Qed.
+
+  Lemma scan_coll : exists st, scan_loop (S (S (length s))) s fn 0 None (mkScan [] [] false None false 0 []) = st /\
+                               sc_ds st = [] /\ sc_ms st = [the_coll] /\ sc_code st = [].
+  Proof.
+    assert (El : (S (S (length s)) = length pre + S (length t + S (length lab + 2 + (length post + 2))))%nat).
+    { unfold s. rewrite !app_length. cbn [length]. lia. }
+    rewrite El.
+    set (st0 := mkScan [] [] false None false 0 []).
+    rewrite (scan_inert_any s fn pre _ [] ([91] ++ t ++ [93; 91] ++ lab ++ [93] ++ post) st0 eq_refl (plain_inert pre Hpre)) by (repeat split).
+    change (slen [] + slen pre) with (slen pre).
+    rewrite (scan_bracket_step _ s fn pre (t ++ [93; 91] ++ lab ++ [93] ++ post) st0 eq_refl) by (repeat split).
+    fold a. rewrite CD_eq. cbn [st0 sc_ds sc_ms sc_start sc_code app].
+    set (st1 := mkScan [CD] [] false None false 0 []).
+    replace (a + 1) with (slen (pre ++ [91])) by (rewrite slen_app; reflexivity).
+    rewrite (scan_inert_any s fn t _ (pre ++ [91]) ([93; 91] ++ lab ++ [93] ++ post) st1); [|unfold s; rewrite <- !app_assoc; reflexivity|exact (plain_inert t Ht)|repeat split].
+    replace (slen (pre ++ [91]) + slen t) with b by (unfold b, a; rewrite slen_app; unfold slen; cbn [length]; lia).
+    cbn [scan_loop].
+    assert (Hlt : b <? slen s = true) by (apply Z.ltb_lt; rewrite c_len; unfold e; pose proof c_p0; pose proof c_l0; lia).
+    rewrite Hlt. cbn [negb]. rewrite c_at_b. cbn [st1 sc_escaped sc_run sc_ds sc_ms sc_in_image sc_start sc_code andb negb orb Z.eqb Pos.eqb].
+    rewrite find_coll. rewrite c_no_code.
+    set (st2 := mkScan [] [the_coll] false None false 0 []).
+    assert (Hcase : post = [] \/ post <> []) by (destruct post; [left; reflexivity|right; discriminate]).
+    destruct Hcase as [Ep|Ep].
+    - assert (Lp : length post = 0%nat) by (rewrite Ep; reflexivity). rewrite Lp.
+      assert (Ee : e + 1 = slen s) by (rewrite c_len, Ep; unfold slen; cbn [length]; lia).
+      rewrite Ee. replace (length lab + 2 + (0 + 2))%nat with (S (length lab + 3)) by lia. rewrite scan_end. cbn [st2 sc_run]. eexists. split; [reflexivity|]. repeat split.
+    - replace (e + 1) with (slen (pre ++ [91] ++ t ++ [93; 91] ++ lab ++ [93])) by (unfold e, b, a; rewrite !slen_app; unfold slen; cbn [length]; lia).
+      replace (length lab + 2 + (length post + 2))%nat with (length post + (length lab + 4))%nat by lia.
+      rewrite (scan_inert_any s fn post _ (pre ++ [91] ++ t ++ [93; 91] ++ lab ++ [93]) [] st2); [|unfold s; rewrite app_nil_r, <- !app_assoc; reflexivity|exact (plain_inert post Hpost)|repeat split].
+      replace (slen (pre ++ [91] ++ t ++ [93; 91] ++ lab ++ [93]) + slen post) with (slen s) by (rewrite c_len; unfold e, b, a; rewrite !slen_app; unfold slen; cbn [length]; lia).
+      replace (length lab + 4)%nat with (S (length lab + 3)) by lia.
+      rewrite scan_end. cbn [st2 sc_run]. eexists. split; [reflexivity|]. repeat split.
+  Qed.
+
+  Theorem core_finds_coll : find_core_tokens s fn = ([the_coll], []).
+  Proof.
+    unfold find_core_tokens. rewrite c_no_code. destruct scan_coll as (st & -> & Hd & Hm & Hc). rewrite Hd, Hm, Hc.
+    unfold process_emphasis. change (next_closer 0 []) with (@None Z). destruct (3 * length s + 3)%nat; reflexivity.
+  Qed.
+
+  Lemma find_all_coll : forall types, forallb kind_quiet_r types = true ->
+    find_all types s fn [] = flat_map (fun kd => match kd with SK_CoreTokens => [CCore the_coll] | _ => [] end) types.
+  Proof.
+    induction types as [|kd ts IH]; intros Hq; [reflexivity|].
+    cbn [forallb] in Hq. apply andb_true_iff in Hq as [Hkq Hts]. cbn [find_all flat_map].
+    assert (F : match kd with SK_CoreTokens | SK_InlineCode | SK_RawText => True | _ => finditer (snd (re_of kd)) (fst (re_of kd)) s = [] end).
+    { destruct kd; try exact I; cbn [kind_quiet_r] in Hkq; apply existsb_exists in Hkq as (c & Hin & Hn);
+        (apply (finditer_none _ _ c s Hn); apply c_no; unfold mem; apply existsb_exists; exists c; split; [exact Hin|apply Z.eqb_refl]). }
+    destruct kd; cbn [find_kind];
+      try (rewrite core_finds_coll; cbn [map app]; f_equal; apply IH; exact Hts);
+      try (cbn [map app]; apply IH; exact Hts);
+      (cbn [re_of fst snd] in F |- *; rewrite F; cbn [map app]; apply IH; exact Hts).
+  Qed.
+
+  Definition coll_tok : tok :=
+    Link (mkLink (escape_strip (strip dest)) (escape_strip title) $"collapsed" None []) [RawText t].
+
+  Theorem tokenize_inner_coll types : forallb kind_quiet_r (removelast types) = true ->
+    filter (fun kd => match kd with SK_CoreTokens => true | _ => false end) (removelast types) = [SK_CoreTokens] ->
+    tokenize_inner types fn s = raw_if pre ++ [coll_tok] ++ raw_if post.
+  Proof.
+    intros Hq Hc. unfold tokenize_inner. rewrite (find_all_coll _ Hq).
+    assert (Es : flat_map (fun kd => match kd with SK_CoreTokens => [CCore the_coll] | _ => [] end) (removelast types) = [CCore the_coll]).
+    { clear Hq. revert Hc. generalize (removelast types) as ts.
+      assert (G : forall ts n, length (filter (fun kd => match kd with SK_CoreTokens => true | _ => false end) ts) = n ->
+                flat_map (fun kd => match kd with SK_CoreTokens => [CCore the_coll] | _ => [] end) ts = repeat (CCore the_coll) n).
+      { induction ts as [|kd ts IH]; intros n Hn; [cbn in Hn; subst n; reflexivity|]. cbn [flat_map filter] in *.
+        destruct kd; try (cbn [app]; apply IH; exact Hn). destruct n as [|n]; [discriminate|]. cbn [length] in Hn. cbn [repeat app]. f_equal. apply IH. lia. }
+      intros ts H. rewrite (G ts 1%nat) by (rewrite H; reflexivity). reflexivity. }
+    rewrite Es.
+    cbn [number_from map fst snd cand_of sk_parse_group field_span the_coll link_mobj m_fields nth_error m_start m_end sk_precedence sk_parse_inner].
+    pose proof c_len as Hs. pose proof c_p0 as Hp0. pose proof c_t0 as Ht0. pose proof c_l0 as Hl0.
+    assert (Ha0 : 0 <= a) by (unfold a, slen; lia).
+    unfold tokenize, SpanTokenizer.make_tokens, make_tokens_with.
+    cbn [sort_cands fold_right insert_stable buffer_rev eval_loop last_end pc ce mk_rev cs make inner ps pe app rev].
+    unfold make_tokens_with. cbn [last_end mk_rev app rev].
+    assert (a + 1 =? b = false) as -> by (apply Z.eqb_neq; unfold b; lia).
+    assert (Gb : (if a >? 0 then [ORaw 0 a] else []) = match pre with [] => [] | _ => [ORaw 0 a] end) by (unfold a; apply gap_before).
+    assert (Ga : (if e + 1 =? slen s then [] else [ORaw (e + 1) (slen s)]) = match post with [] => [] | _ => [ORaw (e + 1) (slen s)] end) by (rewrite Hs; apply gap_after).
+    rewrite Gb, Ga. rewrite rev_app_distr. cbn [rev app]. rewrite rev_app_distr. cbn [rev app].
+    rewrite !map_app. cbn [map build_otok cid src_at Z.to_nat nth].
+    rewrite c_inner, (unescape_plain t Ht).
+    assert (Tk : build_inner (CCore the_coll) [RawText t] = coll_tok) by reflexivity.
+    rewrite Tk. rewrite <- app_assoc. cbn [app]. f_equal; [|f_equal].
+    - apply raw_gap. cbn [build_otok]. f_equal.
+      pose proof (substr_mid [] pre ([91] ++ t ++ [93; 91] ++ lab ++ [93] ++ post)) as M. cbn [app] in M. unfold slen at 1 2 in M. cbn [length Z.of_nat] in M.
+      fold a in M. replace (0 + a) with a in M by lia. unfold s. cbn [app]. rewrite M. apply unescape_plain. exact Hpre.
+    - apply raw_gap. cbn [build_otok]. f_equal.
+      pose proof (substr_mid (pre ++ [91] ++ t ++ [93; 91] ++ lab ++ [93]) post []) as M.
+      replace (slen (pre ++ [91] ++ t ++ [93; 91] ++ lab ++ [93])) with (e + 1) in M by (unfold e, b, a; rewrite !slen_app; unfold slen; cbn [length]; lia).
+      rewrite app_nil_r in M. replace ((pre ++ [91] ++ t ++ [93; 91] ++ lab ++ [93]) ++ post) with s in M by (unfold s; rewrite <- !app_assoc; reflexivity).
+      rewrite Hs. rewrite M. apply unescape_plain. exact Hpost.
+  Qed.
+End RefColl.
+
 (* ---- the statement with computable hypotheses ---- *)
 Definition ref_spans (types : list span_kind) : bool :=
   forallb kind_quiet_r (removelast types) &&
@@ -293,3 +845,29 @@ Example reference_instance :
   ref_ok ($"see ") ($"The  Label") ($", ok") = true /\ ref_ok ($"see ") ($"x") ($"(y)") = false /\ ref_ok [] ($"a*b") [] = false /\
   normalize_label ($"The  Label") = normalize_label ($"the label").
 Proof. vm_compute. repeat split; reflexivity. Qed.
+
+(* ---- the other reference forms, and the reference whose label is not defined ---- *)
+Definition full_ok (pre t lab post : str) : bool :=
+  plain_text pre && plain_text t && plain_text lab && plain_text post && (match t with [] => false | _ => true end) && negb (is_blank lab).
+
+Theorem full_reference_in_sentence types fn pre t lab post dest title :
+  ref_spans types = true -> full_ok pre t lab post = true -> fn_get (normalize_label lab) fn = Some (dest, title) ->
+  tokenize_inner types fn (pre ++ [91] ++ t ++ [93; 91] ++ lab ++ [93] ++ post) =
+  raw_if pre ++ [Link (mkLink (escape_strip (strip dest)) (escape_strip title) $"full" (Some lab) []) [RawText t]] ++ raw_if post.
+Proof.
+  intros Hs Ho Hf. unfold ref_spans in Hs. apply andb_true_iff in Hs as [Hq Hc].
+  unfold full_ok in Ho. repeat rewrite andb_true_iff in Ho. destruct Ho as [[[[[H1 H2] H3] H4] H5] H6]. apply negb_true_iff in H6.
+  apply (tokenize_inner_full pre t lab post fn dest title H1 H2 H3 H4); [destruct t; [discriminate|discriminate]|exact H6|exact Hf|exact Hq|].
+  destruct (filter _ _) as [|[] [|? ?]]; try discriminate. reflexivity.
+Qed.
+
+Theorem collapsed_reference_in_sentence types fn pre t post dest title :
+  ref_spans types = true -> full_ok pre t t post = true -> fn_get (normalize_label t) fn = Some (dest, title) ->
+  tokenize_inner types fn (pre ++ [91] ++ t ++ [93; 91; 93] ++ post) =
+  raw_if pre ++ [Link (mkLink (escape_strip (strip dest)) (escape_strip title) $"collapsed" None []) [RawText t]] ++ raw_if post.
+Proof.
+  intros Hs Ho Hf. unfold ref_spans in Hs. apply andb_true_iff in Hs as [Hq Hc].
+  unfold full_ok in Ho. repeat rewrite andb_true_iff in Ho. destruct Ho as [[[[[H1 H2] _] H4] H5] H6]. apply negb_true_iff in H6.
+  apply (tokenize_inner_coll pre t post fn dest title H1 H2 H4); [destruct t; [discriminate|discriminate]|exact H6|exact Hf|exact Hq|].
+  destruct (filter _ _) as [|[] [|? ?]]; try discriminate. reflexivity.
+Qed.
